@@ -151,7 +151,11 @@ do {                                                                            
 do {                                                                             \
   (head)->hh.tbl = (UT_hash_table*)uthash_malloc(                                \
                   sizeof(UT_hash_table));                                        \
-  if (!((head)->hh.tbl))  { uthash_fatal( "out of memory"); }                    \
+  if (!((head)->hh.tbl))  {                                                      \
+    /* leave the hash empty, in case uthash_fatal() does not terminate */        \
+    (head) = NULL;                                                               \
+    uthash_fatal( "out of memory");                                              \
+  }                                                                              \
   memset((head)->hh.tbl, 0, sizeof(UT_hash_table));                              \
   (head)->hh.tbl->tail = &((head)->hh);                                          \
   (head)->hh.tbl->num_buckets = HASH_INITIAL_NUM_BUCKETS;                        \
@@ -159,7 +163,12 @@ do {                                                                            
   (head)->hh.tbl->hho = (char*)(&(head)->hh) - (char*)(head);                    \
   (head)->hh.tbl->buckets = (UT_hash_bucket*)uthash_malloc(                      \
           HASH_INITIAL_NUM_BUCKETS*sizeof(struct UT_hash_bucket));               \
-  if (! (head)->hh.tbl->buckets) { uthash_fatal( "out of memory"); }             \
+  if (! (head)->hh.tbl->buckets) {                                               \
+    /* leave the hash empty, in case uthash_fatal() does not terminate */        \
+    uthash_free((head)->hh.tbl, sizeof(UT_hash_table));                          \
+    (head) = NULL;                                                               \
+    uthash_fatal( "out of memory");                                              \
+  }                                                                              \
   memset((head)->hh.tbl->buckets, 0,                                             \
           HASH_INITIAL_NUM_BUCKETS*sizeof(struct UT_hash_bucket));               \
   HASH_BLOOM_MAKE((head)->hh.tbl);                                               \
@@ -199,6 +208,12 @@ do {                                                                            
  HASH_FCN(keyptr,keylen_in, (head)->hh.tbl->num_buckets,                         \
          (add)->hh.hashv, _ha_bkt);                                              \
  HASH_ADD_TO_BKT((head)->hh.tbl->buckets[_ha_bkt],&(add)->hh);                   \
+ if ((head)->hh.tbl->expand_failed != 0U) {                                      \
+    /* in case uthash_fatal() does not terminate: leave the hash as it was */    \
+    (head)->hh.tbl->expand_failed = 0U;                                          \
+    HASH_DELETE(hh,head,add);                                                    \
+    uthash_fatal( "out of memory");                                              \
+ }                                                                               \
  HASH_BLOOM_ADD((head)->hh.tbl,(add)->hh.hashv);                                 \
  HASH_EMIT_KEY(hh,head,keyptr,keylen_in);                                        \
  HASH_FSCK(hh,head);                                                             \
@@ -685,7 +700,10 @@ do {                                                                            
     UT_hash_bucket *_he_new_buckets, *_he_newbkt;                                \
     _he_new_buckets = (UT_hash_bucket*)uthash_malloc(                            \
              2UL * tbl->num_buckets * sizeof(struct UT_hash_bucket));            \
-    if (!_he_new_buckets) { uthash_fatal( "out of memory"); }                    \
+    /* the table is still consistent if the new buckets cannot be allocated;     \
+     * HASH_ADD_KEYPTR reports the failure after removing the new item again */  \
+    tbl->expand_failed = (_he_new_buckets == NULL) ? 1U : 0U;                    \
+    if (_he_new_buckets) {                                                       \
     memset(_he_new_buckets, 0,                                                   \
             2UL * tbl->num_buckets * sizeof(struct UT_hash_bucket));             \
     tbl->ideal_chain_maxlen =                                                    \
@@ -723,6 +741,7 @@ do {                                                                            
         uthash_noexpand_fyi(tbl);                                                \
     }                                                                            \
     uthash_expand_fyi(tbl);                                                      \
+    }                                                                            \
 } while(0)
 
 
@@ -939,6 +958,9 @@ typedef struct UT_hash_table {
     * function isn't a good fit for the key domain. When expansion is inhibited
     * the hash will still work, albeit no longer in constant time. */
    unsigned ineff_expands, noexpand;
+
+   /* set when the most recent attempt to expand the buckets failed for lack of memory */
+   unsigned expand_failed;
 
    uint32_t signature; /* used only to find hash tables in external analysis */
 #ifdef HASH_BLOOM
